@@ -21,7 +21,9 @@ REF_FILE = Path(__file__).resolve().parent.parent / "reference" / "shapes.json"
 _TOKEN = re.compile(r"[A-Za-z_][A-Za-z_0-9]*|\d+|\S")
 
 
-def tokens_of(fn_node: ast.AST) -> List[str]:
+def tokens_of(fn_node: ast.AST, numbered: bool = False) -> List[str]:
+    """canonical tokens of a function: decorators, annotations and docstring dropped, parameters and locals numbered in order
+    of first appearance (renaming them changes nothing)"""
     node = copy.deepcopy(fn_node)
     if isinstance(node, (ast.FunctionDef, ast.AsyncFunctionDef)):
         node.decorator_list = []
@@ -30,8 +32,46 @@ def tokens_of(fn_node: ast.AST) -> List[str]:
             a.annotation = None
         if node.body and isinstance(node.body[0], ast.Expr) and isinstance(node.body[0].value, ast.Constant) and isinstance(node.body[0].value.value, str):
             node.body = node.body[1:] or [ast.Pass()]
+        if numbered:
+            _number_locals(node)
     ast.fix_missing_locations(node)
     return _TOKEN.findall(ast.unparse(node))
+
+
+def _number_locals(fn: ast.AST) -> None:
+    bound = set()
+    for n in ast.walk(fn):
+        if isinstance(n, ast.arg):
+            bound.add(n.arg)
+        elif isinstance(n, ast.Name) and isinstance(n.ctx, (ast.Store, ast.Del)):
+            bound.add(n.id)
+        elif isinstance(n, (ast.FunctionDef, ast.AsyncFunctionDef)) and n is not fn:
+            bound.add(n.name)
+    for n in ast.walk(fn):
+        if isinstance(n, (ast.Global, ast.Nonlocal)):
+            bound -= set(n.names)
+    order: Dict[str, str] = {}
+
+    class R(ast.NodeVisitor):  # source order = field order of the tree
+        def visit_arg(self, n):
+            if n.arg in bound:
+                n.arg = order.setdefault(n.arg, f"v{len(order)}")
+
+        def visit_Name(self, n):
+            if n.id in bound:
+                n.id = order.setdefault(n.id, f"v{len(order)}")
+
+        def visit_FunctionDef(self, n):
+            if n is not fn and n.name in bound:
+                n.name = order.setdefault(n.name, f"v{len(order)}")
+            self.generic_visit(n)
+
+        def visit_Call(self, n):
+            self.generic_visit(n)
+            for k in n.keywords:  # keyword names of calls of local functions are left alone (rare)
+                pass
+
+    R().visit(fn)
 
 
 def distance(a: List[str], b: List[str]) -> int:
@@ -51,19 +91,50 @@ def reference() -> Dict[str, List[str]]:
     return _CACHE
 
 
+_CACHE_N: Optional[Dict[str, List[str]]] = None
+
+
+def reference_numbered() -> Dict[str, List[str]]:
+    global _CACHE_N
+    if _CACHE_N is None:
+        _CACHE_N = json.loads(REF_FILE.read_text()).get("functions_numbered", {}) if REF_FILE.exists() else {}
+    return _CACHE_N
+
+
 def allowed(ref_len: int) -> int:
-    return int(os.environ.get("SA_GATE_TOKENS", "0")) or max(16, ref_len // 4)
+    return int(os.environ.get("SA_GATE_TOKENS", "0")) or 10
+
+
+def hunks(a: List[str], b: List[str]) -> List[int]:
+    """sizes of the contiguous differing regions between two token sequences"""
+    sm = difflib.SequenceMatcher(a=a, b=b, autojunk=False)
+    return [max(i2 - i1, j2 - j1) for tag, i1, i2, j1, j2 in sm.get_opcodes() if tag != "equal"]
 
 
 def trusted(where: str, fn_node: ast.AST) -> Tuple[bool, str]:
-    """(is the function close enough to its reviewed shape for a textual rule to accuse?, explanation)"""
+    """(is the function close enough to its reviewed shape for a textual rule to accuse?, explanation)
+
+    Close enough = the reviewed function with a point change: at most two contiguous edits (of at most max(40, a quarter of
+    the function) tokens in all: a dropped conjunct, a replaced expression, a moved statement), or a few scattered tokens
+    (at most 10).  The comparison is made on the text as written and again with parameters and locals numbered (so that renaming them does not count); the closer of the two is used.  Everyday restructuring (extracting or inlining locals in
+    several places, rewriting a loop, re-ordering independent statements) shows up as three or more edits."""
     ref = reference().get(where)
     if ref is None:
         return False, "it was not part of the reviewed tree"
-    d = distance(tokens_of(fn_node), ref)
-    if d <= allowed(len(ref)):
-        return True, f"{d} token(s) from the reviewed shape"
-    return False, f"{d} tokens differ from the reviewed shape (a textual rule is trusted up to {allowed(len(ref))})"
+    hs = hunks(ref, tokens_of(fn_node))
+    if len(hs) > 1 and where in reference_numbered():
+        # the same comparison with parameters and locals numbered in order of appearance: renaming them is no edit
+        hn = hunks(reference_numbered()[where], tokens_of(fn_node, numbered=True))
+        if sum(hn) < sum(hs):
+            hs = hn
+    total = sum(hs)
+    if os.environ.get("SA_GATE_TOKENS"):
+        ok = total <= allowed(len(ref))
+    else:
+        ok = total <= allowed(len(ref)) or (len(hs) <= 2 and total <= max(40, len(ref) // 4))
+    if ok:
+        return True, f"{len(hs)} edit(s), {total} token(s) from the reviewed shape"
+    return False, f"{len(hs)} separate edits, {total} tokens, away from the reviewed shape (a textual rule is trusted up to two contiguous edits or 10 scattered tokens)"
 
 
 _NAMES: Optional[Dict[str, List[str]]] = None
@@ -75,3 +146,14 @@ def reviewed_module_names(module: str) -> Optional[List[str]]:
     if _NAMES is None:
         _NAMES = json.loads(REF_FILE.read_text()).get("module_names", {}) if REF_FILE.exists() else {}
     return _NAMES.get(module)
+
+
+_LOCALS: Optional[Dict[str, List[str]]] = None
+
+
+def reviewed_locals(where: str) -> Optional[List[str]]:
+    """names bound in the function's own scope in the reviewed tree (None: function not reviewed / no reference)"""
+    global _LOCALS
+    if _LOCALS is None:
+        _LOCALS = json.loads(REF_FILE.read_text()).get("locals", {}) if REF_FILE.exists() else {}
+    return _LOCALS.get(where)
